@@ -70,8 +70,31 @@ func parseSafe(in []byte) (v any, err error, panicked string) {
 			panicked = fmt.Sprint(r)
 		}
 	}()
+	pollute()
 	v, err = grammar.Parse("", in)
 	return
+}
+
+// pollute: every judged parse is preceded by an unrelated one that ends abnormally - a budget running out in the middle of a rule, in the
+// middle of a negative look-ahead, an input with a recorded action error, an invalid one. Whatever a parse leaves behind (a parser
+// object that is reused, a budget, half-built stacks, an error list) must not reach the next parse, which is option-less.
+var polluteN int
+
+func pollute() {
+	defer func() { recover() }()
+	polluteN++
+	switch polluteN % 5 {
+	case 0:
+		grammar.Parse("", []byte("a == 1 and (b == 2 or c in d)"), grammar.MaxExpressions(7))
+	case 1:
+		grammar.Parse("", []byte("foo == 1 and"), grammar.MaxExpressions(520))
+	case 2:
+		grammar.Parse("", []byte(`a == "\q" and b == "\z"`))
+	case 3:
+		grammar.Parse("", []byte("((a == 1"), grammar.MaxExpressions(300))
+	case 4:
+		grammar.Parse("", []byte("any a as x, x { x == `1` } )"))
+	}
 }
 
 // tokenSeqs enumerates all k-sequences over toks x gap patterns; fam identifies the family for replay coordinates.
@@ -190,7 +213,9 @@ func c15Derivations(thorough bool) []string {
 		"all matchesx as containsx, iss { iss is not empty and not nota == emptyx }", "x == not", "x == in", "not nothing == 1",
 		"a == 1 or b == 1 or c == 1 or d == 1", "a == 1 and b == 1 and c == 1 and d == 1 and x == 1", "a == 1 or b == 1 and c == 1 or d == 1 and x == 1 or a is empty",
 		"(a == 1 or b == 1) or (c == 1 or d == 1)", "not a == 1 and not b == 1 and not c == 1 and not d == 1",
-		"a is not empty", "a not matches `s`", "any a as x { x == 1 }", "all a as i, _ { i != 0 }", "any a as _, x {x == `s`}", `"/a/b" == "/a"`, "a == -1.5", "not (a == 1 or b == 1)")
+		"a is not empty", "a not matches `s`", "any a as x { x == 1 }",
+		// unary operators and value-less forms inside quantifier bodies that really iterate
+		"any a as x { x is empty }", "all a as x { x is not empty }", "any a as k, v { v is empty or k is not empty }", "all a as x { not x is empty and x matches `a` }", "any a as x { any x as y { y is empty } }", "all a as i, _ { i != 0 }", "any a as _, x {x == `s`}", `"/a/b" == "/a"`, "a == -1.5", "not (a == 1 or b == 1)")
 	return out
 }
 
